@@ -41,7 +41,7 @@ pub struct Item {
 // (a) token alphabets
 // ---------------------------------------------------------------------------
 
-const COMMON_HOSTILE: [&str; 9] = ["9223372036854775807", "-9223372036854775808", "1e999", "0", "1", "\u{f1}a\u{f1}o", "\u{1F600}", "\0", "'"];
+const COMMON_HOSTILE: [&str; 10] = ["9223372036854775807", "-9223372036854775808", "1e999", "0", "1", "\u{f1}a\u{f1}o", "\u{1F600}", "\0", "'", "\\"];
 
 pub fn alphabet(lang: Lang) -> Vec<&'static str> {
     let mut v: Vec<&'static str> = match lang {
@@ -81,6 +81,7 @@ pub fn corpus(lang: Lang) -> Vec<&'static str> {
     match lang {
         Lang::Gql => vec![
             "MATCH (n) RETURN n",
+            "MATCH (n:Person) WHERE n.name = 'a\\'b\\\\c\\n\\u00e9' OR n.name = \"d\\\"e\\\\\" RETURN n.name",
             "MATCH (n:Person) RETURN n.name, n.age",
             "MATCH (n:Person) WHERE n.age > 26 RETURN n.name",
             "MATCH (n:Person) WHERE n.age >= 25 AND n.score < 2.0 OR NOT n.name = 'Bob' RETURN n",
@@ -123,6 +124,7 @@ pub fn corpus(lang: Lang) -> Vec<&'static str> {
         ],
         Lang::Cypher => vec![
             "MATCH (n) RETURN n",
+            "MATCH (n:Person) WHERE n.name = 'a\\'b\\\\c\\n\\u00e9' OR n.name = \"d\\\"e\\\\\" RETURN n.name",
             "MATCH (n:Person) RETURN n.name, n.age",
             "MATCH (n:Person) WHERE n.age > 26 RETURN n.name",
             "MATCH (n:Person) WHERE n.age >= 25 AND n.score < 2.0 OR NOT n.name = 'Bob' XOR n.age <> 3 RETURN n",
@@ -167,6 +169,7 @@ pub fn corpus(lang: Lang) -> Vec<&'static str> {
         ],
         Lang::Gremlin => vec![
             "g.V()",
+            "g.V().has('name', 'a\\'b\\\\c\\n').has(\"name\", \"d\\\"e\\\\\").values('name')",
             "g.E()",
             "g.V(0)",
             "g.V(0, 1)",
@@ -253,6 +256,7 @@ pub fn corpus(lang: Lang) -> Vec<&'static str> {
         ],
         Lang::Sparql => vec![
             "SELECT ?s ?p ?o WHERE { ?s ?p ?o }",
+            "SELECT ?s WHERE { ?s ?p \"a\\\"b\\\\c\\n\\u00e9\" . ?s ?q 'd\\'e\\\\' }",
             "SELECT * WHERE { ?s ?p ?o } LIMIT 1",
             "SELECT DISTINCT ?p WHERE { ?s ?p ?o } ORDER BY DESC(?p) LIMIT 5 OFFSET 1",
             "SELECT ?o WHERE { <http://ex.org/a> <http://ex.org/name> ?o }",
